@@ -58,6 +58,8 @@ def handler_set(tr):
 
 def check(ctx):
     a = ctx.a
+    from .c03 import framing_premise
+    framing_premise(ctx, 'P0', 'a PUBLISH or PUBREL that is mis-framed is delivered short, merged with its neighbour, or never answered')
     ty = types(a)
     caps, pm, _ = capabilities(a)
     order = documented_deliver_order(a.prog)
